@@ -1,10 +1,11 @@
-import Marwood.Lemmas.CompileCorrect3Toy
+import Marwood.Lemmas.CompileCorrect3ToyLaws
 import Marwood.Lemmas.CompileCorrect3Main
 import Marwood.Lemmas.CompileCorrect2Demo
 /-!
 # T01.3 stage 3 — every hypothesis discharged for a rest parameter and for an internal definition
 
-On the heap of `CompileCorrect3Toy.lean` (lambda 0 at address 0, the top-level code at address 1) all hypotheses
+On the heap of `CompileCorrect3Toy.lean` (lambda 0 at address 0, the top-level code at address 1; no closure
+environment yet: `cenvs = []`) all hypotheses
 of `compileExpr_correct3_nontail` hold for
 
 * `((lambda (a . r) r) 1 2 3)` — the compiler model emits `VARARG; ENTER; MOV <env r> acc; RET` for lambda 0;
@@ -122,9 +123,10 @@ theorem demoR_code1 (S : Array Cell) : CodeAt2 demoDR c0.envmap demoHeapR S 1 0 
     .nil))))))))))))))))))
 
 theorem demoR_inv : Inv3 demoDR W0 demoHeapR demoSt := by
-  refine ⟨(by intro x w h; cases h), (by intro x h; cases h), keepB_nil _, (by intro x h; cases h), ?_,
+  refine ⟨(by intro x w h; cases h), (by intro x h; cases h), ⟨keepB_nil _, fun _ h => absurd h List.not_mem_nil⟩,
+    (by intro x h; cases h), ?_,
     (by intro e n l l' h; cases h),
-    (by intro e n e' n' l h; cases h), (by intro e n l h; cases h)⟩
+    (by intro e n e' n' l h; cases h), (by intro e n l h; cases h), (by intro e n l h; cases h)⟩
   intro id lamM hid
   obtain ⟨rfl, rfl⟩ := demoR_final_get hid
   exact ⟨demoR_code0 _, rfl⟩
@@ -257,9 +259,10 @@ theorem demoD_code1 (S : Array Cell) : CodeAt2 demoDD c0.envmap demoHeapD S 1 0 
     (.cons rfl (.cons rfl .nil))))))))))
 
 theorem demoD_inv : Inv3 demoDD W0 demoHeapD demoSt := by
-  refine ⟨(by intro x w h; cases h), (by intro x h; cases h), keepB_nil _, (by intro x h; cases h), ?_,
+  refine ⟨(by intro x w h; cases h), (by intro x h; cases h), ⟨keepB_nil _, fun _ h => absurd h List.not_mem_nil⟩,
+    (by intro x h; cases h), ?_,
     (by intro e n l l' h; cases h),
-    (by intro e n e' n' l h; cases h), (by intro e n l h; cases h)⟩
+    (by intro e n e' n' l h; cases h), (by intro e n l h; cases h), (by intro e n l h; cases h)⟩
   intro id lamM hid
   obtain ⟨rfl, rfl⟩ := demoD_final_get hid
   exact ⟨demoD_code0 _, rfl⟩
